@@ -1873,8 +1873,10 @@ func (ctx *RenderContext) toNumber(val interface{}) (float64, bool) {
 	case float64:
 		return v, true
 	case string:
-		// Try to parse as float64
-		if f, err := strconv.ParseFloat(v, 64); err == nil {
+		// Try to parse as float64 (the texts "nan", "inf" and "infinity" are words,
+		// not numbers: as a number "nan" would not even equal itself, and "inf"
+		// would equal "Infinity")
+		if f, err := strconv.ParseFloat(v, 64); err == nil && !math.IsNaN(f) && !math.IsInf(f, 0) {
 			return f, true
 		}
 		return 0, false
